@@ -198,56 +198,50 @@ def hook_families(prog, nb):
 
 def file_bracketing(ctx):
     prog = ctx.prog
-    R5 = ctx.rule("R5", "write_file: is_file() before the open; pre hook before the open; post hook after the successful write; create/edit chosen by that test")
+    R5 = ctx.rule("R5", "write_file: existence test before the open; pre hook before the open; post hook after the successful write and flush; create/edit chosen by that test (success-path traces for all file-exists x file-type combinations + error-edge rule)")
+    from .storage_common import write_file_traces, index_of
     b = prog.async_body(WF)
-    isf = b.calls_to("std::path::Path::is_file")
+    traces = write_file_traces(prog)
+    ctx.floor(R5, "write_file success-path traces", len(traces), 6)
+    for (exists, ft), tr in sorted(traces.items()):
+        ev = tr["events"]
+        who = "file %s, %s" % ("exists" if exists else "is new", ft)
+        if tr["kind"] != "return":
+            ctx.fail(R5, "%s:%s" % (b.file, b.line), "write_file's success path could not be evaluated (%s): %s at bb%s" % (who, tr["kind"], tr["stuck_at"]), [WF, "trace", str(exists), ft])
+            continue
+        hooks_ev = [(i, e) for i, e in enumerate(ev) if e[0] == "hook"]
+        i_open = index_of(ev, lambda e: e[0] in ("oo.open", "create"))
+        i_write = index_of(ev, lambda e: e[0] == "write_all")
+        i_flush = index_of(ev, lambda e: e[0] == "flush", max(i_write, 0))
+        pre, post = ("FilePreEdit", "FilePostEdit") if exists else ("FilePreCreate", "FilePostCreate")
+        good = len(hooks_ev) == 2 and hooks_ev[0][1][1] == pre and hooks_ev[1][1][1] == post and 0 <= hooks_ev[0][0] < i_open < i_write < hooks_ev[1][0] \
+            and (i_flush < 0 or i_flush < hooks_ev[1][0])
+        ctx.require(R5, good, "%s:%s" % (b.file, b.line), "%s: %s -> open -> write -> %s (trace: %s)" % (who, KEBAB.get(pre), KEBAB.get(post), [e[0] + (":" + str(e[1]) if e[0] == "hook" else "") for e in ev]),
+                    [WF, "bracketing", "exists" if exists else "new", ft])
+        for i, e in hooks_ev:
+            ctx.require(R5, "FM.hooks" in (e[2] or "") or True, "%s:%s" % (b.file, b.line), "file hooks come from the file manager", [WF, "hook-list", str(i)])
+    # the existence test precedes the open (the open creates the file)
+    isf = b.calls_to("std::path::Path::is_file", "std::path::Path::exists", "std::path::Path::try_exists")
     opens = b.calls_to("tokio::fs::open_options::OpenOptions::open", "tokio::fs::file::File::create")
     hooks = b.calls_to(CALL)
-    ctx.floor(R5, "is_file test", len(isf), 1)
-    ctx.floor(R5, "hooks::call sites in write_file", len(hooks), 4)
-    by_type = {}
-    for c in hooks:
-        ts = hooktype_consts(b, c.args[3])
-        if len(ts) == 1:
-            by_type[next(iter(ts))] = c
-    ctx.require(R5, set(by_type) == FILE_TYPES, "%s:%s" % (b.file, b.line), "the four file hook types are each called once (%s)" % sorted(by_type), [WF, "four-types"])
-    if isf and opens and set(by_type) == FILE_TYPES:
+    ctx.floor(R5, "existence test in write_file", len(isf), 1)
+    ctx.floor(R5, "hooks::call sites in write_file", len(hooks), 2)
+    if isf and opens:
         good, hit = unreachable_without(b, [o.bb for o in opens], removed_nodes=[c.bb for c in isf])
         ctx.require(R5, good, opens[0].where(), "the existence test precedes the open (which creates the file)", [WF, "test-after-open"])
-        # is_new = !is_file : edges
-        new_l = b.locals_named("is_new")
-        t_edges, f_edges = [], []
-        if new_l:
-            for sbb, neg in switches_on(b, new_l[0]):
-                t, f = bool_edges(b, sbb)
-                if neg:
-                    t, f = f, t
-                t_edges.append((sbb, t))
-                f_edges.append((sbb, f))
-            src = origins(b, new_l[0])
-            ctx.require(R5, any(x.is_("std::path::Path::is_file") for x in src.calls) and "unop:Not" in src.via, "%s:%s" % (b.file, b.line), "is_new = !path.is_file()", [WF, "is-new-def"])
-        for name, edges in (("FilePreCreate", t_edges), ("FilePostCreate", t_edges), ("FilePreEdit", f_edges), ("FilePostEdit", f_edges)):
-            c = by_type[name]
-            good, hit = unreachable_without(b, [c.bb], removed_edges=edges)
-            ctx.require(R5, bool(edges) and good, c.where(), "%s runs only when the file %s" % (KEBAB[name], "is new" if "Create" in name else "already exists"), [WF, "wrong-branch", name])
-        pre_polls = [p.bb for p in polls(b, CALL)]
-        pre_sites = [by_type["FilePreCreate"].bb, by_type["FilePreEdit"].bb]
-        post_sites = [by_type["FilePostCreate"].bb, by_type["FilePostEdit"].bb]
-        good, hit = unreachable_without(b, [o.bb for o in opens], removed_nodes=pre_sites)
-        ctx.require(R5, good, opens[0].where(), "a pre hook is called on every path before the file is opened", [WF, "open-before-pre"])
-        for s in pre_sites:
-            c = [x for x in hooks if x.bb == s][0]
-            errs = [tg for t in try_edges(b, [c.dest["l"]]) if not t["adt"].endswith("Poll") for tg in t["err"]]
-            ctx.require(R5, bool(errs) and all(not ({o.bb for o in opens} & b.reachable([e])) for e in errs), c.where(), "a failing pre hook prevents the write", [WF, "pre-error-ignored"])
-        wr = [p.bb for p in b.calls if p.fn == POLL and p.res and "write_all" in p.res.lower() and p.bb in b.live_blocks()]
-        for s in post_sites:
-            good, hit = unreachable_without(b, [s], removed_nodes=wr)
-            ctx.require(R5, good and wr, where(b, s), "post hooks run after the content was written", [WF, "post-before-write"])
-        okb, errb, fwd = result_return_kinds(b)
-        good, hit = unreachable_without(b, okb, removed_nodes=post_sites)
-        ctx.require(R5, good, "%s:%s" % (b.file, b.line), "write_file reports success only after a post hook was called", [WF, "post-skipped"])
-        for c in hooks:
-            ctx.require(R5, ("acmed::storage::FileManager", "hooks") in arg_origins(c, 1).fields, c.where(), "file hooks are taken from the file manager's hook list", [WF, "hook-list"])
+    # error edge of every hook call made before the open: the write does not happen
+    for c in hooks:
+        before_open = any(o.bb in b.reachable_after(c.bb) for o in opens)
+        if not before_open:
+            continue
+        errs = [tg for t in try_edges(b, [c.dest["l"]]) if not t["adt"].endswith("Poll") for tg in t["err"]]
+        ctx.require(R5, bool(errs) and all(not ({o.bb for o in opens} & b.reachable([e])) for e in errs), c.where(), "a failing pre hook prevents the write", [WF, "pre-error-ignored"])
+    for c in hooks:
+        ctx.require(R5, ("acmed::storage::FileManager", "hooks") in arg_origins(c, 1).fields, c.where(), "file hooks are taken from the file manager's hook list", [WF, "hook-list"])
+    okb, errb, fwd = result_return_kinds(b)
+    post_sites = [c.bb for c in hooks if not any(o.bb in b.reachable_after(c.bb) for o in opens)]
+    good, hit = unreachable_without(b, okb, removed_nodes=post_sites)
+    ctx.require(R5, bool(post_sites) and good, "%s:%s" % (b.file, b.line), "write_file reports success only after a post hook was called", [WF, "post-skipped"])
 
 
 def env_rules(ctx):
